@@ -78,7 +78,18 @@ def edge_slots(kinds):
     return [(i, j) for i in range(len(kinds)) for j in range(i) if compatible(kinds[i], kinds[j])]
 
 
-def build_nodes(kinds, edges):
+def join_terms(terms, style):
+    """the same sum written the ways an isar / sack document may write it (with and without blanks, parenthesised)"""
+    if style == 1:
+        return '+'.join(terms)
+    if style == 2:
+        return '+'.join('(%s)' % t for t in terms)
+    if style == 3:
+        return '(' + '+'.join(terms) + ')-0'
+    return ' + '.join(terms)
+
+
+def build_nodes(kinds, edges, style=0):
     """real model nodes D0..Dn-1; node i refers to node j for every selected (i, j) slot"""
     from prophyc import model
     n = len(kinds)
@@ -95,12 +106,12 @@ def build_nodes(kinds, edges):
             terms = ['%d' % (i + 1)]
             for j in refs:
                 terms.append(('D%d' % j) if kinds[j] == 'const' else ('D%d_M' % j))
-            nodes.append(model.Constant(name, ' + '.join(terms)))
+            nodes.append(model.Constant(name, join_terms(terms, style)))
         elif k == 'enum':
             terms = ['%d' % (i + 1)]
             for j in refs:
                 terms.append(('D%d' % j) if kinds[j] == 'const' else ('D%d_M' % j))
-            nodes.append(model.Enum(name, [model.EnumMember('D%d_M' % i, ' + '.join(terms)), model.EnumMember('D%d_Z' % i, '0')]))
+            nodes.append(model.Enum(name, [model.EnumMember('D%d_M' % i, join_terms(terms, style)), model.EnumMember('D%d_Z' % i, '0')]))
         elif k == 'typedef':
             tgt = [j for j in refs if kinds[j] in TYPEISH]
             deps[i] = tgt[:1]                           # a typedef names exactly one type: only that reference exists
@@ -146,17 +157,17 @@ def layout_of(nodes):
     return res
 
 
-def order_independent(kinds, edges, perm_sel):
+def order_independent(kinds, edges, perm_sel, style=0):
     from prophyc import model
     kinds = list(kinds)
     # canonical run: dependency order (node i only refers to j < i)
-    canon, deps = build_nodes(kinds, edges)
+    canon, deps = build_nodes(kinds, edges, style)
     model.evaluate_model(canon)
     want = layout_of(canon)
     for v in want.values():
         if v[0] is None:
             return True      # the canonical run itself could not size a type (e.g. non-positive array size): outside the claim
-    nodes, deps = build_nodes(kinds, edges)
+    nodes, deps = build_nodes(kinds, edges, style)
     order = isar_order(kinds, perm_sel)
     arranged = [nodes[i] for i in order]
     names_in = sorted(x.name for x in arranged)
@@ -172,13 +183,13 @@ def order_independent(kinds, edges, perm_sel):
     return layout_of(out) == want
 
 
-def order_explain(kinds, edges, perm_sel):
+def order_explain(kinds, edges, perm_sel, style=0):
     from prophyc import model
     kinds = list(kinds)
     slots = edge_slots(kinds)
     sel = sorted(set('%s->%s' % (kinds[i], kinds[j]) for (i, j), e in zip(slots, edges) if e))
     try:
-        ok = order_independent(kinds, edges, perm_sel)
+        ok = order_independent(kinds, edges, perm_sel, style)
         kind = 'order-or-layout' if not ok else 'none'
     except Exception as e:    # noqa
         kind = 'exception:' + type(e).__name__
